@@ -1,7 +1,7 @@
 (* C14 - builtins are total and behave as documented. Property theorems only (proofs in proofs/BuiltinsProofs.v, DecimalProofs.v). All statements hold for EVERY oracle (float text, fmod), heap and value. *)
-From NL.Model Require Import Builtins.
-From NL.Spec Require Import GCInv.
-From NL.Proofs Require DecimalProofs BuiltinsProofs.
+From NL.Model Require Import Builtins Pipeline.
+From NL.Spec Require Import GCInv Sem Fragment Fragment2 Fragment2h.
+From NL.Proofs Require DecimalProofs BuiltinsProofs CompileCorrectH3 CompileCorrectH5.
 Import DecimalProofs BuiltinsProofs.
 Open Scope Z_scope.
 
@@ -73,6 +73,14 @@ Proof. exact BuiltinsProofs.type_spec. Qed.
 Theorem display_arr : forall (orc : oracle) (h : heap) (l : positive) (vs : list val) (T : text), get_arr h l = Ok vs -> display orc h (VArr l) = Ok T -> exists ts : list text, Forall2 (fun (v : val) (t : text) => display orc h v = Ok t) vs ts /\ T = [91%N] ++ BuiltinsProofs.join (str_cps ", ") ts ++ [93%N].
 Proof. exact BuiltinsProofs.display_arr. Qed.
 
+(* SOURCE level (fragment F2h): the text a program prints is exactly, and in the same order, what the definitional semantics prints - also when the program then fails *)
+Theorem print_output_order : forall (orc : oracle) (p : block), in_F2h p = true -> ends_expr p = true -> lits_exact (lits_b p) -> forall bc : bytecode, compile p = Ok bc -> forall fuel : nat, (size2h_b p <= fuel)%nat -> sem_program orc fuel p <> SemFuel -> sem_small orc fuel p (length (b_constants bc)) -> exists budget : nat, CompileCorrectH5.sem_out (sem_program orc fuel p) = Some (o_out (run_program orc bc budget)).
+Proof. exact CompileCorrectH5.print_output_order. Qed.
+
+(* every builtin is invariant under renaming of heap locations: related arguments in related heaps give related results, equal output and related heaps *)
+Theorem call_builtin_rel : forall (orc : oracle) (K : Z) (R : loc_rel) (hs hm : heap), CompileCorrectH3.HR K R hs hm -> forall (b : builtin) (args args' : list val), Forall2 (val_rel R) args args' -> CompileCorrectH3.bres_rel K R hm (call_builtin orc b hs args) (call_builtin orc b hm args').
+Proof. exact CompileCorrectH3.call_builtin_rel. Qed.
+
 Example print_norescan_nonvacuous : True. Proof. exact I. Qed.
 Print Assumptions builtins_total.
 Print Assumptions arity_error.
@@ -91,3 +99,5 @@ Print Assumptions print_spec.
 Print Assumptions subst_first.
 Print Assumptions type_spec.
 Print Assumptions display_arr.
+Print Assumptions print_output_order.
+Print Assumptions call_builtin_rel.
